@@ -242,3 +242,15 @@ Definition jparse (js : bool) (rng : Z -> bool) (b : list Z) : res (jout * jst) 
 
 (* iwstrtod(b, &end) from the start of the buffer: where `end` points to *)
 Definition sde_query (b : list Z) : res Z := strtod_end (S (length b)) b 0.
+
+(* jbn_from_json / jbn_from_js as their callers see them: rc and *node.  strict = a text without any value (a lone closing
+   bracket: the value parser returns it to a caller that does not exist) is refused (Facts.fact_json_rejects_rootless,
+   fixes/safety-json-rootless.diff); otherwise the call reports success with *node == NULL, which jbl_from_json,
+   jbl_patch_from_json, jbn_merge_patch_from_json and iwjsreg dereference. *)
+Definition jdoc (strict js : bool) (rng : Z -> bool) (b : list Z) : res (jout * jst) :=
+  do r <- jparse js rng b;
+  match fst r with
+  | JAt _ => if strict && (j_nodes (snd r) =? 0) then Ok (JErr EJson, snd r) else Ok r
+  | JErr _ => Ok r
+  end.
+Definition jdoc_current := jdoc fact_json_rejects_rootless.
